@@ -320,6 +320,9 @@ func (m *Map) applyDelete(key, end []byte, prevKv, count bool) OpExpect {
 type ApplyResult struct {
 	Value uint64 // Result.Value: 1 = success, 0 = failure (only transactions can "fail")
 	Ops   []OpExpect
+	// Txn: the entry is a transaction - the only kind of command whose result VALUE means something to a caller ("the succeeded flag
+	// travels as the apply result value"); what the other commands put there is nobody's business
+	Txn bool
 }
 
 // Apply applies one committed command with its log index.
@@ -353,6 +356,7 @@ func (m *Map) applyCmd(cmd *regattapb.Command) ApplyResult {
 			res.Value = 0
 		}
 		res.Ops = ops
+		res.Txn = true
 	case regattapb.Command_SEQUENCE:
 		for _, c := range cmd.Sequence {
 			sub := m.applyCmd(c)
